@@ -220,6 +220,32 @@ func runC03(h *Harness) {
 			h.Violation("C03.side-effects", "workdir-touched:"+mode, "mode %s left entries in the work_dir: %v", mode, tree)
 		}
 	}
+	// the same certificate presented by three connections at once (cells whose rejection has a lasting cause: an
+	// authentic 'revoked', a list in force that names the certificate): the composition holds for each of them,
+	// whatever handshakes for one certificate share
+	lasting := (ocspOn && oc == "revoked") || (crlOn && (cr == "listed" || cr == "listed-configured"))
+	if lasting && chainShape != "leaf-only" && len(h.R.Violations) == 0 {
+		h.S.pPre = (1 << 32) / 5
+		var ts []*Task
+		var calls []*HS
+		for i := 0; i < 3; i++ {
+			c := h.StartHandshake(n, fmt.Sprintf("hs-at-once%d", i), chains)
+			calls, ts = append(calls, c), append(ts, c.Task)
+		}
+		h.Wait(ts...)
+		h.Quiesce()
+		h.R.Checks += 3
+		for i, c := range calls {
+			if c.Err == nil {
+				modeClass := mode
+				if mode == "" {
+					modeClass = "unset"
+				}
+				h.Violation("C03.truth-table", "accepted-should-reject:"+modeClass+":at-once:ocsp="+oc+":crl="+cr, "cell %s: the certificate presented by three connections at once: connection %d was accepted, expected reject", cell, i+1)
+				break
+			}
+		}
+	}
 	h.R.Sample = map[string]any{"cell": cell, "expected_reject": reject, "verdict": verdict, "crl_hits": crlHits, "ocsp_hits": ocspHits}
 	h.Cleanup(n)
 }
